@@ -114,6 +114,17 @@ struct State {
   uint64_t cur = 0;
   std::unique_ptr<StringReader> r;
   bool interesting = false;
+  // other live views of the same storage (a by-value copy of the root reader, a second reader constructed over the same storage, and
+  // every reader the history stepped out of): whatever is done through the current reader, each of them must go on reading exactly
+  // its own window of the original bytes, with its own cursor
+  struct View {
+    StringReader r;
+    size_t win, n;
+    uint64_t cur;
+    const char* what;
+  };
+  std::vector<View> views;
+  uint64_t ctor = 0;
 };
 
 // the model bytes of the current reader's window
@@ -125,6 +136,45 @@ static std::string bit_reader_bytes(BitReader& br) {
   std::string out;
   for (size_t i = 0; i + 8 <= br.size(); i += 8) out.push_back(static_cast<char>(br.read(8)));
   return out;
+}
+
+// Readers never write: after every call the storage the caller handed over (the heap block, the std::string, the string behind the
+// shared_ptr - its size and every byte) is what it was, and every other view of it still reads its whole window.
+static void check_other_views(const State& st, size_t opidx, uint64_t acc) {
+#define opname acc_name(acc)
+  const size_t len = st.d.size();
+  const char* cn = kCtorName[st.ctor];
+  auto first_diff = [&](const uint8_t* p) {
+    size_t i = 0;
+    while (i < len && p[i] == st.d[i]) i++;
+    return i;
+  };
+  for (const auto& v : st.views) {
+    VCHECK(v.r.size() == v.n, cat("other-view-size:", cn), "after op #", opidx, " (", opname, ") on another view, ", v.what, " has size ", v.r.size(), ", it had ", v.n);
+    VCHECK(v.r.where() == v.cur, cat("other-view-cursor:", cn), "after op #", opidx, " (", opname, ") on another view, the cursor of ", v.what, " is ", v.r.where(), ", it was ", v.cur);
+    std::string got = v.r.pread(0, SIZE_MAX);
+    std::string want(reinterpret_cast<const char*>(st.d.data()) + v.win, v.n);
+    if (got != want) {
+      size_t i = 0;
+      while (i < got.size() && i < want.size() && got[i] == want[i]) i++;
+      VFAIL(cat("other-view-content:", cn), "after op #", opidx, " (", opname, ") on another view, ", v.what, " (window ", v.win, "+", v.n, ") reads ", got.size(), " bytes, byte ", i, " = ",
+          (unsigned)static_cast<uint8_t>(i < got.size() ? got[i] : 0), ", the data has ", (unsigned)static_cast<uint8_t>(i < want.size() ? want[i] : 0));
+    }
+  }
+  if (st.ctor == C_SHARED) {
+    VCHECK(st.shared->size() == len, cat("storage-resized:", cn), "after op #", opidx, " (", opname, ") the caller's string behind the shared_ptr has size ", st.shared->size(), ", it had ", len);
+    VCHECK(reinterpret_cast<const uint8_t*>(st.shared->data()) == st.base0, cat("storage-moved:", cn), "after op #", opidx, " (", opname, ") the caller's string moved its buffer");
+    size_t i = first_diff(st.base0);
+    VCHECK(i == len, cat("storage-written:", cn), "after op #", opidx, " (", opname, ") byte ", i, " of the caller's string is ", (unsigned)st.base0[i < len ? i : 0], ", it was ", (unsigned)st.d[i < len ? i : 0]);
+  } else if (st.ctor == C_STRING) {
+    VCHECK(st.str.size() == len && reinterpret_cast<const uint8_t*>(st.str.data()) == st.base0, cat("storage-resized:", cn), "after op #", opidx, " (", opname, ") the caller's string has size ", st.str.size(), ", it had ", len);
+    size_t i = first_diff(st.base0);
+    VCHECK(i == len, cat("storage-written:", cn), "after op #", opidx, " (", opname, ") byte ", i, " of the caller's string changed");
+  } else {
+    size_t i = first_diff(st.base0);
+    VCHECK(i == len, cat("storage-written:", cn), "after op #", opidx, " (", opname, ") byte ", i, " of the caller's buffer changed");
+  }
+#undef opname
 }
 
 // the "wrong accept" / "wrong reject" clauses carry the root-cause class: a sum that wraps vs a plain bound
@@ -503,6 +553,7 @@ static void apply_op(State& st, uint64_t acc, uint64_t a, uint64_t b, size_t opi
     // the history goes on inside the sub-reader: its window is [win + off, win + off + len) of the original data
     if (st.depth >= 1 && (st.win > 0 || next_off > 0)) st.interesting = true;
     ctx().cls(st.depth == 0 ? "nest:sub-reader of the root reader" : (st.win > 0 ? "nest:sub-reader of a sub-reader that starts inside its parent" : "nest:sub-reader of a sub-reader that starts at its parent's first byte"));
+    st.views.push_back(State::View{*st.r, st.win, st.n, st.cur, "the reader the history stepped out of"});
     *st.r = next;
     st.win += next_off;
     st.n = next_len;
@@ -560,7 +611,17 @@ static void run_reader_case(const Case& c, bool single) {
     VCHECK(r.pread(0, SIZE_MAX) == slice(st, 0, len), cat("ctor-content:", kCtorName[ctor]), how, ": pread(0, SIZE_MAX) differs from the data");
     st.cur = start;
   }
-  for (size_t k = first; k < nops; k++) apply_op(st, c.u(3 + 3 * k), c.u(4 + 3 * k), c.u(5 + 3 * k), k);
+  st.ctor = ctor;
+  st.views.push_back(State::View{StringReader(*st.r), 0, static_cast<size_t>(len), start, "a by-value copy of the reader made before the history"});
+  switch (ctor) {
+    case C_POINTER: st.views.push_back(State::View{StringReader(st.blk.get(), len), 0, static_cast<size_t>(len), 0, "a second reader over the same block"}); break;
+    case C_STRING: st.views.push_back(State::View{StringReader(st.str), 0, static_cast<size_t>(len), 0, "a second reader over the same string"}); break;
+    default: st.views.push_back(State::View{StringReader(st.shared), 0, static_cast<size_t>(len), 0, "a second reader built from the same shared_ptr"}); break;
+  }
+  for (size_t k = first; k < nops; k++) {
+    apply_op(st, c.u(3 + 3 * k), c.u(4 + 3 * k), c.u(5 + 3 * k), k);
+    check_other_views(st, k, c.u(3 + 3 * k));
+  }
   if (st.interesting) {
     if (single) {
       // distinct by (constructor, accessor(s), n, offset, size): the data seed does not count
